@@ -6,7 +6,7 @@ import SymVerif.Model.StrParse
                   on every input; a failure is appended as `  !<reason>` and therefore shows up as a difference.
   `pr <e>`        print only (inputs outside the round-trip fragment): `StrP.render (Expr.norm e)`
   `pair <a> <b>`  `eq(a, b)` and both texts: `<0|1> <str a> | <str b>`
-  `rt <e>`        oracle-only op of the harness: `SKIP:oracle-only`
+  `rt <e>`, `rtpw <seed>`   oracle-only ops of the harness (Piecewise is rebuilt from a seed): `SKIP:oracle-only`
   `names`         the printer's function-name table `Class=name,...` in TypeID order (checks the translator
                   against the real `init_str_printer_names()`)
 Operands outside the modelled printing fragment (`StrP.printed`) give `SKIP:unmodelled`. -/
@@ -46,7 +46,7 @@ def handle (line : String) : String :=
   else if line.startsWith "str " then strOp (line.drop 4).toString true
   else if line.startsWith "pr " then strOp (line.drop 3).toString false
   else if line.startsWith "pair " then pairOp (line.drop 5).toString
-  else if line.startsWith "rt " then "SKIP:oracle-only"
+  else if line.startsWith "rt " || line.startsWith "rtpw " then "SKIP:oracle-only"
   else "bad-op"
 
 def main : IO Unit := drvMain handle
